@@ -24,9 +24,10 @@ pub enum Area {
     UsedEvent,
 }
 
-/// Something the driver just did which a device might observe.
+/// Something the driver just did which a device might observe, or a queue operation starting or
+/// finishing.
 #[derive(Copy, Clone, Debug, Eq, PartialEq)]
-pub enum Event {
+pub enum Event<'a> {
     /// The driver has just stored to the given location of the given queue.
     Store {
         /// The index of the queue.
@@ -41,6 +42,54 @@ pub enum Event {
         /// The index of the queue.
         queue: u16,
     },
+    /// `VirtQueue::add` was called with these buffers.
+    AddBegin {
+        /// The index of the queue.
+        queue: u16,
+        /// The device-readable buffers.
+        inputs: &'a [&'a [u8]],
+        /// The device-writable buffers.
+        outputs: &'a [&'a mut [u8]],
+    },
+    /// `VirtQueue::add` is about to return this.
+    AddEnd {
+        /// The index of the queue.
+        queue: u16,
+        /// The result.
+        result: crate::Result<u16>,
+    },
+    /// `VirtQueue::pop_used` was called with this token and these buffers.
+    PopBegin {
+        /// The index of the queue.
+        queue: u16,
+        /// The token passed by the caller.
+        token: u16,
+        /// The device-readable buffers.
+        inputs: &'a [&'a [u8]],
+        /// The device-writable buffers.
+        outputs: &'a [&'a mut [u8]],
+    },
+    /// `VirtQueue::pop_used` is about to return this.
+    PopEnd {
+        /// The index of the queue.
+        queue: u16,
+        /// The result.
+        result: crate::Result<u32>,
+    },
+    /// `VirtQueue::should_notify` was called.
+    ShouldNotify {
+        /// The index of the queue.
+        queue: u16,
+    },
+    /// `VirtQueue::set_dev_notify` was called (`done` is false) or is about to return (true).
+    SetDevNotify {
+        /// The index of the queue.
+        queue: u16,
+        /// The argument.
+        enable: bool,
+        /// Whether the call is finishing.
+        done: bool,
+    },
     /// The driver is busy-waiting for the device.
     Spin {
         /// Which loop is spinning.
@@ -50,7 +99,7 @@ pub enum Event {
     },
 }
 
-type Hook = Box<dyn FnMut(&Event)>;
+type Hook = Box<dyn FnMut(&Event<'_>)>;
 
 std::thread_local! {
     static HOOK: RefCell<Option<Hook>> = const { RefCell::new(None) };
@@ -62,7 +111,7 @@ pub fn set_hook(hook: Option<Hook>) {
 }
 
 /// Calls the current thread's hook, if any.
-pub fn emit(event: Event) {
+pub fn emit(event: Event<'_>) {
     HOOK.with(|h| {
         // Take the hook out while it runs so that a panic inside it (used by harnesses to unwind
         // out of a busy-wait loop) or a nested emit can't leave the cell borrowed.
